@@ -69,12 +69,9 @@ def run(tier):
     rr_ = vp.tlc("MC_Recur", "MC_Recur", workers=4, timeout=600, name="c11-recur")
     C.add_tlc(rr_, "MC_Recur (call stack with the component depth counter carried across includes; InvBounded, InvOutcome)")
     rvecs = rr_.tags["VEC"]
-    def op(o):
-        return "" if o == "none" else ("{% include '" + o + "' %}" if o in ("A", "B") else "{{<" + o + "/>}}")
+    import recur_glue
     for ri_, v in enumerate(rvecs):
-        g = v["g"]
-        tpls = [["A", "A(" + op(g["A"]) + "){% component c() %}[c" + op(g["c"]) + "]{% endcomponent c %}"],
-                ["B", "B(" + op(g["B"]) + "){% component d() %}[d" + op(g["d"]) + "]{% endcomponent d %}"]]
+        tpls = recur_glue.templates(v["g"])
         jobs.append({"cfg": {}, "steps": [{"op": "add", "tpls": tpls}] + ([{"op": "render", "name": v["entry"]}] if v["res"] != "refused" else []) + [{"op": "names"}]})
         meta.append((-1000000 - ri_, v["entry"]))
     res = vp.run_jobs(jobs, tag="c11", timeout=3000, may_abort=True)
